@@ -19,7 +19,7 @@ ASSUMPTIONS = [
     "gpg cases are bounded by the key bundles of the repository's test keyring; OpenPGP parsing is trusted",
     "files that are not loadable metadata abort verification (DESIGN 4.3) and are not generated here",
 ]
-TAMPERS = [None] * 9 + ["content", "sig", "unsigned", "other_family", "float", "illformed_signed"]
+TAMPERS = [None] * 9 + ["content", "sig", "unsigned", "other_family", "float", "illformed_signed", "unloadable_text"]
 
 
 def authorised_main(step_pubkeys, keystore, kid_name, signer, link_fmt):
@@ -302,7 +302,7 @@ def one_case(rng, res, gpg, combo=None, case_no=None):
                                 "authorised, untampered, validly signed link for the focus step", i)
         if acc and "evil" in i["result"]["ok"]:
             vcommon.oracle_fail(res, scn, desc, "artifacts of a link that must not count reached the summary link", i)
-        unloadable = any(f["tamper"] == "illformed_signed" for f in desc["files"])      # (validly signed, but not link metadata)
+        unloadable = any(f["tamper"] in ("illformed_signed", "unloadable_text") for f in desc["files"])      # (validly signed but not link metadata; text that does not load)
         for path, content in scn.files.items():
             if isinstance(content, dict) and "signed" in content:
                 _c, err = scen.payload_canon_by_model(content)
